@@ -33,6 +33,8 @@ func runC01(c *engine.Ctx) {
 	r2 := c.Rule("R2", "the block map given to the loader is keyed by each block's own CID", 1)
 	r3 := c.Rule("R3", "a queued item's bytes are blocks[k] for the k recorded as the item's link; other writers store nil", 1)
 	r3b := c.Rule("R3b", "pooled items never carry stale bytes: every Put is preceded by wiping .block", 1)
+	r8 := c.Rule("R8", "the library's own block-store link system hands every write its own buffer, which is the one its committer stores under the committed link", 1)
+	c01WriterPerOpen(c, r8)
 	r4 := c.Rule("R4", "store open/write/commit and return of remote bytes only after head.link == requested CID; bytes are that head's block; committer gets the requested link", 2)
 	r5 := c.Rule("R5", "replay guard: verifier installed on going online; VerifyNext errors returned; usable-remote only when verifier nil/done; error reaches the load result", 2)
 	r6 := c.Rule("R6", "responses are routed only to requests sent to the sending peer (C09.R1)", 1)
@@ -654,4 +656,67 @@ func c01ReplayEval(f *ssa.Function, verify *ssa.Call, verF *types.Var) (errRetur
 	_, _, usable := run(false)
 	usableOK = !usable
 	return
+}
+
+// c01WriterPerOpen (R8): loadRemote pairs bytes and link as  w, commit := open(); w.SetBytes(block); commit(link).
+// The pairing survives concurrent loads only if each open() returns a writer of its own and the committer stores
+// that writer's bytes.  (storeutil.LinkSystemForBlockstore is the link system the library builds for its users.)
+func c01WriterPerOpen(c *engine.Ctx, rule string) {
+	n := 0
+	for _, f := range c.P.FuncsIn("storeutil") {
+		engine.Instrs(f, func(in ssa.Instruction) {
+			st, ok := in.(*ssa.Store)
+			if !ok {
+				return
+			}
+			fa, ok := st.Addr.(*ssa.FieldAddr)
+			if !ok || engine.FieldOf(fa) == nil || engine.FieldOf(fa).Name() != "StorageWriteOpener" {
+				return
+			}
+			lit := resolveFuncValue(st.Val)
+			if lit == nil || lit.Blocks == nil {
+				c.Undecided(rule, engine.FuncName(f)+"|write-opener", st.Pos(), "the write opener is not a function literal")
+				return
+			}
+			n++
+			c.Analysed(engine.FuncName(lit))
+			fresh, committerOwn := true, true
+			var buf *ssa.Alloc
+			for _, r := range engine.Returns(lit) {
+				if len(r.Results) < 2 {
+					continue
+				}
+				w := engine.LocalValue(r.Results[0])
+				if engine.IsNilConst(w) {
+					continue
+				}
+				al, isAl := w.(*ssa.Alloc)
+				if !isAl || al.Parent() != lit {
+					fresh = false
+					continue
+				}
+				buf = al
+				// the committer returned alongside captures that very buffer
+				if mc, isMC := engine.LocalValue(r.Results[1]).(*ssa.MakeClosure); isMC {
+					captures := false
+					for _, b := range mc.Bindings {
+						if b == ssa.Value(al) {
+							captures = true
+						}
+					}
+					if !captures {
+						committerOwn = false
+					}
+				} else if !engine.IsNilConst(engine.LocalValue(r.Results[1])) {
+					committerOwn = false
+				}
+			}
+			c.Decide(rule, engine.FuncName(f)+"|write-opener|fresh-writer", st.Pos(), fresh && committerOwn && buf != nil,
+				"each open allocates its own buffer; the committer captures that buffer",
+				fmt.Sprintf("the write opener does not hand each write its own buffer captured by its own committer (own buffer: %v, committer bound to it: %v): two loads in flight on the same link system store one block's bytes under the other's link", fresh, committerOwn))
+		})
+	}
+	if n == 0 {
+		c.AnchorMissing(rule, "the StorageWriteOpener function installed by storeutil")
+	}
 }
